@@ -78,7 +78,18 @@ func (fr *FnRun) checkCallSite(st *State, site ssa.Instruction, c *ssa.CallCommo
 	if fr.ctr == nil || len(fr.ctr.Sites) == 0 || site == nil || site.Parent() != fr.fn {
 		return
 	}
-	desc := fr.siteDesc(c)
+	fr.checkSite(st, site, fr.siteDesc(c))
+}
+
+// checkAllocSite: the same for a heap allocation matched by a `new:Type` pattern.
+func (fr *FnRun) checkAllocSite(st *State, al *ssa.Alloc) {
+	if fr.ctr == nil || len(fr.ctr.Sites) == 0 || !al.Heap || al.Parent() != fr.fn {
+		return
+	}
+	fr.checkSite(st, al, "allocation of "+TypeKey(al.Type().(*types.Pointer).Elem()))
+}
+
+func (fr *FnRun) checkSite(st *State, site ssa.Instruction, desc string) {
 	for _, sp := range fr.ctr.Sites {
 		if !fr.siteMatches(sp, site) {
 			continue
@@ -119,6 +130,12 @@ func (fr *FnRun) matchingSites(sp *CallSiteSpec) []ssa.Instruction {
 		for _, in := range b.Instrs {
 			if ci, ok := in.(ssa.CallInstruction); ok {
 				if d := fr.siteDesc(ci.Common()); d == pat || strings.HasSuffix(d, pat) {
+					all = append(all, in)
+				}
+			}
+			// `new:Type`: a heap allocation (new(T) / &T{...}) of that type
+			if al, ok := in.(*ssa.Alloc); ok && al.Heap && strings.HasPrefix(pat, "new:") {
+				if d := "new:" + TypeKey(al.Type().(*types.Pointer).Elem()); d == pat || strings.HasSuffix(d, "."+strings.TrimPrefix(pat, "new:")) {
 					all = append(all, in)
 				}
 			}
